@@ -41,6 +41,7 @@ var concs = map[string]func(rng *rand.Rand, rounds int, res *concResult){
 	"C15": concC15,
 	"C18": concC18,
 	"C19": concC19,
+	"C20": concC20,
 }
 
 func runConc(prop string, seed int64, rounds int) {
@@ -323,12 +324,24 @@ func concC05(rng *rand.Rand, rounds int, res *concResult) {
 		e.GET("/a/:x", h)
 		e.GET("/b/:y/c/:z", h)
 		e.GET("/s", h)
+		// a custom not-found route with a parameter, reached through the best-match node (values are kept in a snapshot)
+		e.POST("/files/:id", h)
+		e.RouteNotFound("/files/:id", func(c echo.Context) error {
+			id := c.Request().Header.Get("X-Req")
+			for i := 0; i < 3; i++ {
+				if got := c.Param("id"); got != "v"+id {
+					bad.Store(fmt.Sprintf("request %s: the not-found route /files/:id saw id=%q", id, got))
+				}
+				runtime.Gosched()
+			}
+			return c.String(http.StatusNotFound, "nf-"+id)
+		})
 		g := 4 + rng.Intn(13)
 		per := 20 + rng.Intn(60)
 		parallel(res, g, "C05", func(k int) {
 			for j := 0; j < per; j++ {
 				id := fmt.Sprintf("%d-%d", k, j)
-				p := []string{"/a/v" + id, "/b/v" + id + "/c/w", "/s", "/missing/" + id}[(k+j)%4]
+				p := []string{"/a/v" + id, "/b/v" + id + "/c/w", "/s", "/missing/" + id, "/files/v" + id}[(k+j)%5]
 				if k == 0 && j == per/2 {
 					// a route with more parameters than any so far, registered while traffic runs (documented as unsupported for
 					// routing races, so it goes to its own instance path only through the serialised Add)
@@ -337,7 +350,11 @@ func concC05(rng *rand.Rand, rounds int, res *concResult) {
 				req.Header.Set("X-Req", id)
 				rec := httptest.NewRecorder()
 				e.ServeHTTP(rec, req)
-				if strings.HasPrefix(p, "/missing") {
+				if strings.HasPrefix(p, "/files/") {
+					if rec.Code != 404 || rec.Body.String() != "nf-"+id {
+						bad.Store(fmt.Sprintf("request %s for %s answered %d %q", id, p, rec.Code, rec.Body.String()))
+					}
+				} else if strings.HasPrefix(p, "/missing") {
 					if rec.Code != 404 {
 						bad.Store(fmt.Sprintf("request %s for %s answered %d", id, p, rec.Code))
 					}
@@ -453,6 +470,61 @@ func concC15(rng *rand.Rand, rounds int, res *concResult) {
 		})
 		if v := bad.Load(); v != nil {
 			res.fail("C15 minLength=%d goroutines=%d: %v", minLen, g, v)
+		}
+		res.Ops += g * per
+		res.Scenarios++
+	}
+}
+
+// ---------------------------------------------------------------- C20
+// Reverse routing from many goroutines at once: every call must return the instance of ITS pattern with ITS values,
+// and requesting that URL must reach that route with those values.
+func concC20(rng *rand.Rand, rounds int, res *concResult) {
+	for it := 0; it < rounds; it++ {
+		e := echo.New()
+		e.Logger.SetOutput(io.Discard)
+		pats := []string{"/users/:id", "/a/:x/b/:y", "/files/*", "/v1/:kind/:name/actions", "/static/:a/*"}
+		for i, p := range pats {
+			p := p
+			e.GET(p, func(c echo.Context) error {
+				return c.String(http.StatusOK, p+"|"+strings.Join(c.ParamValues(), "|"))
+			}).Name = fmt.Sprintf("r%d", i)
+		}
+		g := 4 + rng.Intn(13)
+		per := 50 + rng.Intn(150)
+		var bad atomic.Value
+		parallel(res, g, "C20", func(k int) {
+			for j := 0; j < per; j++ {
+				i := (k + j) % len(pats)
+				v1, v2 := fmt.Sprintf("g%dn%d", k, j), fmt.Sprintf("w%d-%d", j, k)
+				want := strings.NewReplacer(":id", v1, ":x", v1, ":y", v2, ":kind", v1, ":name", v2, ":a", v1).Replace(pats[i])
+				args := []interface{}{v1, v2}
+				if strings.HasSuffix(pats[i], "*") {
+					tail := v2
+					if pats[i] == "/files/*" {
+						tail = v1
+					}
+					want = strings.TrimSuffix(want, "*") + tail
+				}
+				n := strings.Count(pats[i], ":") + strings.Count(pats[i], "*")
+				got := e.Reverse(fmt.Sprintf("r%d", i), args[:n]...)
+				if got != want {
+					bad.Store(fmt.Sprintf("Reverse(%s, %v) = %q while other goroutines reverse other routes; the pattern instance is %q", pats[i], args[:n], got, want))
+					continue
+				}
+				rec := httptest.NewRecorder()
+				e.ServeHTTP(rec, httptest.NewRequest("GET", got, nil))
+				wantBody := pats[i] + "|" + strings.Join([]string{v1, v2}[:n], "|")
+				if pats[i] == "/files/*" {
+					wantBody = pats[i] + "|" + v1
+				}
+				if rec.Code != 200 || rec.Body.String() != wantBody {
+					bad.Store(fmt.Sprintf("GET %s answered %d %q, expected the route %s with its values (%q)", got, rec.Code, rec.Body.String(), pats[i], wantBody))
+				}
+			}
+		})
+		if v := bad.Load(); v != nil {
+			res.fail("C20 goroutines=%d: %v", g, v)
 		}
 		res.Ops += g * per
 		res.Scenarios++
